@@ -102,6 +102,10 @@ pub struct Plan {
     /// that owner's pre-signed block of ops (two deliveries together hold more than MAX_REG_NUM_ENTRIES/2 each)
     #[serde(default)]
     pub big_registers: bool,
+    /// capacity of the node's record store (0 = the shipped default). 1 = a store that is full with its one record:
+    /// every delivery of the run concerns that one record, so each update is an update of the farthest record held
+    #[serde(default)]
+    pub capacity: usize,
     pub steps: Vec<Step>,
 }
 
@@ -225,13 +229,15 @@ fn gen_delivery(rng: &mut Rng, prop: &str, mutable_only: bool, unpaid_bias: bool
     }
     // the size limit is enforced where records arrive from the kad network: RecordStore::put
     let entry = if mangle == 2 || mangle == 4 { 1 } else { entry };
+    let form = if rng.chance(1, 4) { 1 + rng.below(4) as u8 } else { 0 };
     Delivery {
         entry,
         kind,
         who,
         pay,
-        counter: rng.range(1, 6),
-        form: if rng.chance(1, 4) { 1 + rng.below(4) as u8 } else { 0 },
+        // an unsigned pad also comes with counter 0: what Scratchpad::new yields before anything was signed
+        counter: if form == 1 && rng.chance(1, 2) { 0 } else { rng.range(1, 6) },
+        form,
         items,
         key_mode,
         mangle,
@@ -366,6 +372,13 @@ impl Sim for NodeSim {
                         }
                     }
                 }
+                if d.kind == 1 && d.form == 1 && d.counter == 0 && rng.chance(1, 2) {
+                    // the unsigned, never-updated pad arrives as a replicated copy (no payment needed on that path)
+                    d.entry = 2;
+                    d.pay = None;
+                    d.key_mode = 0;
+                    d.mangle = 0;
+                }
                 steps.push(Step::Deliver { d });
                 steps.push(Step::Settle);
                 if prop == "C07" && with_restarts && rng.chance(1, 4) {
@@ -406,10 +419,26 @@ impl Sim for NodeSim {
                 }
             }
         }
+        // C07, a twelfth of the sequential runs: a store of capacity 1 and one mutable record; the store is full from the
+        // first accepted upload on, every update meets a full store and concerns the farthest (only) record held
+        let mut capacity = 0usize;
+        if ctx.property == "C07" && ctx.mode == "sequential" && !big_registers && rng.chance(1, 12) {
+            capacity = 1;
+            collide = false;
+            let kind = 1 + rng.below(3) as u8;
+            let who = rng.below(2) as u8;
+            for st in steps.iter_mut() {
+                if let Step::Deliver { d } = st {
+                    d.kind = kind;
+                    d.who = who;
+                }
+            }
+        }
         Plan {
             property: ctx.property.clone(),
             mode: ctx.mode.clone(),
             seed: rng.next_u64(),
+            capacity,
             // swarm knob: a sparse routing table (fewer than K peers known) up to more than K
             cache: *rng.pick(&[0usize, 0, 1, 2]),
             collide,
